@@ -1,0 +1,62 @@
+// Copyright 2019 Samaritan Authors
+//
+// Licensed under the Apache License, Version 2.0 (the "License");
+// you may not use this file except in compliance with the License.
+// You may obtain a copy of the License at
+//
+//      http://www.apache.org/licenses/LICENSE-2.0
+//
+// Unless required by applicable law or agreed to in writing, software
+// distributed under the License is distributed on an "AS IS" BASIS,
+// WITHOUT WARRANTIES OR CONDITIONS OF ANY KIND, either express or implied.
+// See the License for the specific language governing permissions and
+// limitations under the License.
+
+//go:build verif
+// +build verif
+
+package hc
+
+import (
+	"context"
+	"time"
+
+	hostpkg "github.com/samaritan-proxy/samaritan/host"
+	loggerpkg "github.com/samaritan-proxy/samaritan/logger"
+	"github.com/samaritan-proxy/samaritan/pb/config/hc"
+)
+
+// This file only exists with the build tag "verif".
+
+// VerifCheckFunc is a scripted checker: nil means the check succeeded.
+type VerifCheckFunc func(addr string, timeout time.Duration) error
+
+type verifChecker struct{ fn VerifCheckFunc }
+
+func (c verifChecker) Check(addr string, timeout time.Duration) error { return c.fn(addr, timeout) }
+
+// VerifNewMonitor creates a monitor exactly as NewMonitor does, except that
+// the protocol checker is the scripted fn (no network, no shared TCP checker).
+func VerifNewMonitor(config *hc.HealthCheck, hostSet *hostpkg.Set, fn VerifCheckFunc) (*Monitor, error) {
+	if err := config.Validate(); err != nil {
+		return nil, err
+	}
+	ctx, cancel := context.WithCancel(context.Background())
+	return &Monitor{
+		logger:           loggerpkg.Get(),
+		ctx:              ctx,
+		cancel:           cancel,
+		done:             make(chan struct{}),
+		config:           config,
+		strategyUpdateCh: make(chan struct{}, 1),
+		checker:          verifChecker{fn},
+		hostSet:          hostSet,
+	}, nil
+}
+
+// VerifCheckOnce runs one synchronous check round over hostSet.All(), the
+// body of one tick of the monitor loop.
+func (m *Monitor) VerifCheckOnce() { m.checkHosts() }
+
+// VerifCheckHost runs the check-and-update step of one host synchronously.
+func (m *Monitor) VerifCheckHost(h *hostpkg.Host) { m.checkHostAndUpdateStatus(h) }
